@@ -300,6 +300,17 @@ def foreign_events(ctx):
     for alg_, nmpi in ((1, 1), (2, 1), (16, 2), (20, 2)):
         mp = b''.join(build.mpi(int.from_bytes(bytes((i * 37 + alg_ + j) % 251 + 1 for i in range(64 + j)), 'big')) for j in range(nmpi))
         corpus.append(('foreign pkesk algorithm %d' % alg_, 1, b'\x03' + bytes(range(1, 9)) + bytes([alg_]) + mp))
+    # algorithm ids the reader knows by name but has no ciphertext / key-material layout for (sign-only ids in a session-key packet, the
+    # reserved Diffie-Hellman id 21 in key packets): whatever it makes of the algorithm-specific octets, an ACCEPTED packet is consumed
+    # exactly, comes back with the same octets and is a fixed point
+    for alg_ in (3, 17, 19, 21, 22):
+        corpus.append(('pkesk for algorithm id %d (no ciphertext layout)' % alg_, 1, b'\x03' + bytes(range(1, 9)) + bytes([alg_]) + build.mpi(0xff) + build.mpi(0x01ff) + b'\x05rest.'))
+    km21 = build.mpi(0xc5) + build.mpi(0x1234567)
+    corpus.append(('public key of algorithm id 21 (no key-material layout)', 6, b'\x04' + struct.pack('>I', 1262304000) + b'\x15' + km21))
+    corpus.append(('public subkey of algorithm id 21 (no key-material layout)', 14, b'\x04' + struct.pack('>I', 1262304000) + b'\x15' + km21))
+    for usage_, s2k_ in ((0, b'\x00'), (254, bytes([254, 7, 3, 8]) + b'12345678' + b'\x60' + bytes(range(16))), (255, bytes([255, 9, 0, 2]) + bytes(range(16)))):
+        corpus.append(('secret key of algorithm id 21 (no key-material layout) usage %d' % usage_, 5, b'\x04' + struct.pack('>I', 1262304000) + b'\x15' + km21 + s2k_ + build.mpi(0x7f) + b'\x00\x7f'))
+        corpus.append(('secret subkey of algorithm id 21 (no key-material layout) usage %d' % usage_, 7, b'\x04' + struct.pack('>I', 1262304000) + b'\x15' + km21 + s2k_ + build.mpi(0x7f) + b'\x00\x7f'))
     corpus.append(('foreign pkesk wildcard recipient', 1, b'\x03' + bytes(8) + b'\x01' + build.mpi(0x1234567890abcdef1234567890abcdef)))
     for spec_, s2k_ in ((0, bytes([0, 8])), (1, bytes([1, 2]) + bytes(range(8))), (3, bytes([3, 10]) + bytes(range(8)) + b'\x60')):
         corpus.append(('foreign skesk s2k %d' % spec_, 3, b'\x04\x09' + s2k_))
